@@ -71,7 +71,17 @@ pub fn public_key(pt: &Pt) -> Sm2PublicKey {
 }
 /// bypasses `Sm2PrivateKey::new` (public fields): d with its reference public key
 pub fn private_key(d: &BigUint) -> Sm2PrivateKey {
-    Sm2PrivateKey { d: to_limbs(d), public_key: public_key(&sm2::g_mul(d)) }
+    private_key_with(d, public_key(&sm2::g_mul(d)))
+}
+/// a key object holding d and the given public-key object: built by the constructor for d = 1 and then overwritten
+/// through the public fields, so that a private field added to the struct does not stop the harness from building
+pub fn private_key_with(d: &BigUint, pk: Sm2PublicKey) -> Sm2PrivateKey {
+    let mut one = [0u8; 32];
+    one[31] = 1;
+    let mut sk = Sm2PrivateKey::new(&one).expect("d = 1 is a valid private key");
+    sk.d = to_limbs(d);
+    sk.public_key = pk;
+    sk
 }
 
 /// `Option<&'static str>` IDs: strings are interned and leaked once
